@@ -129,6 +129,11 @@ func PlayGrid(tier string) []*Config {
 	add(cfg([]int64{4, 4, 4, 4, 4}, 0, 1, 3, 0, false, 0, "no", "sv:1,0,0,1,1", 2, 0, "standard", "classes"))
 	add(cfg([]int64{3, 3, 3, 3, 3, 3}, 0, 1, 2, 0, true, 1, "pot", "royal52", 2, 0, "standard", "classes"))
 
+	// full ring: 9- and 10-handed, the last seat short (alone on its contribution level), the button far from seat 0
+	add(cfg([]int64{2, 2, 2, 2, 2, 2, 2, 2, 2}, 0, 1, 2, 0, false, 0, "no", "royal52", 2, 0, "standard", "classes"))
+	add(cfg([]int64{3, 3, 3, 3, 3, 3, 3, 3, 1}, 0, 1, 2, 0, false, 4, "no", "sv:1,0,1,0,1,0,2,0,2", 2, 0, "standard", "edges"))
+	add(cfg([]int64{4, 2, 4, 2, 4, 2, 4, 2, 3, 4}, 1, 1, 2, 0, false, 8, "no", "f52", 2, 0, "standard", "edges"))
+
 	// (C') odd corners: equal blinds 3-handed, ante above the blinds, dealer blind only heads-up, 3 and 5 hole cards
 	for _, br := range vectors(3, []int64{2, 5}) {
 		add(cfg(br, 0, 2, 2, 0, false, 2, "no", "sv:1,1,0", 2, 0, "standard", "all"))
@@ -149,6 +154,17 @@ func PlayGrid(tier string) []*Config {
 	add(cfg([]int64{2, 3, 2}, 1, 1, 2, 0, false, 1, "no", "f52:14", 2, 0, "standard", "classes"))
 	add(cfg([]int64{3, 2}, 0, 1, 2, 0, false, 0, "no", "f52:16", 4, 2, "standard", "classes"))
 	add(cfg([]int64{2, 2, 2, 2, 2, 2, 2}, 0, 1, 2, 0, false, 0, "no", "f36", 4, 2, "short", "classes"))
+
+	// (F) the same player actions through the seats' own handles (Game.Player(i).X instead of Game.X)
+	for _, c := range []*Config{
+		cfg([]int64{3, 5}, 0, 1, 2, 0, false, 0, "no", "f52", 2, 0, "standard", "all"),
+		cfg([]int64{4, 2, 5}, 1, 1, 2, 0, false, 1, "no", "sv:1,1,0", 2, 0, "standard", "all"),
+		cfg([]int64{5, 3, 4}, 0, 1, 2, 3, false, 2, "pot", "f52", 2, 0, "standard", "all"),
+		cfg([]int64{2, 3, 2, 3}, 0, 1, 2, 0, true, 0, "no", "sv:1,0,1,2", 2, 0, "standard", "classes"),
+	} {
+		c.ViaSeat = true
+		add(c)
+	}
 
 	// (E) magnitude twins: small shapes with every amount multiplied by k = 1001, 2^31+1, 2^53+1, 2^56+1
 	// (table stakes in the thousands; beyond 32 bits; odd values no float64 can hold; near the top of int64)
